@@ -329,8 +329,9 @@ package bt
 //@ func bt.(*Tx).toBytesHelper
 //@   pure
 //@ func bt.(*Tx).Size
+//@   bytes token
+//@   requires (spec.out_scripts_nonnil tx) (spec.inputs_nonnil tx)
 //@   ensures[size_is_ser_len] (and (= result (spec.ser_len tx)) (<= 0 result))
-//@   trusted "ser_len is the abstract serialised length; len(Bytes()) is tied to the wire format under C01"
 
 //@ func bt.(*Tx).SizeWithTypes
 //@   ensures[C11.size_total] (= (. result TotalBytes) (old (spec.ser_len tx)))
@@ -397,3 +398,43 @@ package bt
 //@   loop 1 invariant (fresh h)
 //@   loop 0 invariant (= (bytes h) (bcat (le32 (old (. tx Version))) (bcat (ite extended (spec.ext_marker) beps) (bcat (spec.vi (old (len (. tx Inputs)))) (old (spec.ser_ins tx index lockingScript extended (+ rangeindex 1)))))))
 //@   loop 1 invariant (= (bytes h) (bcat (le32 (old (. tx Version))) (bcat (ite extended (spec.ext_marker) beps) (bcat (spec.vi (old (len (. tx Inputs)))) (bcat (old (spec.ser_ins tx index lockingScript extended (len (. tx Inputs)))) (bcat (spec.vi (old (len (. tx Outputs)))) (old (spec.ser_outs tx (+ rangeindex 1)))))))))
+//@ func bt.(*Tx).Bytes
+//@   bytes token
+//@   requires (spec.out_scripts_nonnil tx) (spec.inputs_nonnil tx)
+//@   fresh result
+//@   ensures[C01.bytes] (= (bytes result) (old (spec.tx_bytes tx false)))
+//@ func bt.(*Tx).ExtendedBytes
+//@   bytes token
+//@   pure
+//@   requires (spec.out_scripts_nonnil tx) (spec.inputs_nonnil tx)
+//@   fresh result
+//@   ensures[C01.extended_bytes] (= (bytes result) (old (spec.tx_bytes tx true)))
+//@ func bt.(*Tx).BytesWithClearedInputs
+//@   bytes token
+//@   pure
+//@   requires (spec.out_scripts_nonnil tx) (spec.inputs_nonnil tx)
+//@   fresh result
+//@   ensures[C03.cleared_bytes] (= (bytes result) (old (spec.tx_ser tx index lockingScript false)))
+//@ func bt.(*Tx).TxIDBytes
+//@   bytes token
+//@   pure
+//@   requires (spec.out_scripts_nonnil tx) (spec.inputs_nonnil tx)
+//@   fresh result
+//@   ensures[C01.txid_bytes] (= (bytes result) (brev (bsha256d (old (spec.tx_bytes tx false)))))
+//@ func bt.(*Tx).TxID
+//@   bytes token
+//@   pure
+//@   requires (spec.out_scripts_nonnil tx) (spec.inputs_nonnil tx)
+//@   ensures[C01.txid] (= result (bhex (brev (bsha256d (old (spec.tx_bytes tx false))))))
+//@ func bt.(*Tx).String
+//@   bytes token
+//@   pure
+//@   requires (spec.out_scripts_nonnil tx) (spec.inputs_nonnil tx)
+//@   ensures[C01.string_hex] (= result (bhex (old (spec.tx_bytes tx false))))
+
+// ---- wire decoding (C01): what was consumed is the encoding of what was returned ----
+//@ func bt.(*VarInt).ReadFrom
+//@   bytes token
+//@   opt bytes-le-defs 1
+//@   ensures[C01.varint_read_len] (=> (= err nil) (and (or (= r0 1) (= r0 3) (= r0 5) (= r0 9)) (>= r0 (spec.vlen (deref v))) (=> (= r0 1) (< (deref v) 253)) (=> (= r0 3) (< (deref v) 65536)) (=> (= r0 5) (< (deref v) 4294967296)) (<= 0 (deref v)) (< (deref v) 18446744073709551616)))
+//@   ensures[C01.varint_read] (=> (= err nil) (= (old (rem r)) (bcat (spec.vi_n (deref v) r0) (rem r))))
